@@ -147,11 +147,46 @@ func checkC13(r *Report) {
 		} else if path := mustPassBlocks(canon, func(b *ssa.BasicBlock) bool { return b == l.header }); path != nil {
 			pp := pathPositions(p, path)
 			r.bad("C13.c/MUST-SORT", key, pp[len(pp)-1], "a success path of Canon skips the loop that sorts per-node errors", pp...)
-		} else if res := loopAccount(l, sortSet, nil); len(res.unaccounted) > 0 {
+		} else if res := loopAccount(l, sortSet, []exemption{{"fewer than two errors (nothing to sort)", func(c ssa.Value) bool {
+			b, ok := c.(*ssa.BinOp)
+			if !ok || (b.Op != token.LSS && b.Op != token.LEQ) {
+				return false
+			}
+			k, ok := b.Y.(*ssa.Const)
+			if !ok || k.Value == nil {
+				return false
+			}
+			lim := k.Int64()
+			if b.Op == token.LEQ {
+				lim++
+			}
+			call, ok := b.X.(*ssa.Call)
+			if !ok || lim > 2 {
+				return false
+			}
+			bi, ok := call.Common().Value.(*ssa.Builtin)
+			return ok && bi.Name() == "len"
+		}}}); len(res.unaccounted) > 0 {
 			pp := pathPositions(p, res.unaccounted[0])
 			r.bad("C13.c/MUST-SORT", key, pp[len(pp)-1], "an iteration of the node loop can skip sorting that node's errors", pp...)
 		} else {
-			r.ok("C13.c/MUST-SORT", key, blockPos(p, l.header), "the loop over the nodes is on every success path and every iteration sorts the node's Errors")
+			r.ok("C13.c/MUST-SORT", key, blockPos(p, l.header), "the loop over the nodes is on every success path and every iteration sorts the node's Errors (or has fewer than two)")
+			// ordering: Node.Compare compares Errors element by element, so they must be sorted before the nodes are
+			var nodeSort *ssa.BasicBlock
+			for _, b := range canon.Blocks {
+				if blockCalls(b, nameSet("sort.Sort", "sort.Stable")) != nil {
+					nodeSort = b
+				}
+			}
+			okey := fnKey(canon) + ": errors sorted before nodes"
+			switch {
+			case nodeSort == nil:
+				r.bad("C13.c/MUST-SORT", okey, p.pos(canon.Pos()), "node sort not found")
+			case l.body[nodeSort] || !l.header.Dominates(nodeSort):
+				r.bad("C13.c/MUST-SORT", okey, blockPos(p, nodeSort), "the node sort is not preceded by the per-node error sort: Node.Compare compares the Errors slices element by element, so nodes that differ only in the recorded order of their errors are ordered by that input order")
+			default:
+				r.ok("C13.c/MUST-SORT", okey, blockPos(p, nodeSort), "the error-sort loop dominates the node sort and is finished before it")
+			}
 		}
 	}
 }
@@ -255,7 +290,6 @@ func checkC14(r *Report) {
 		r.bad("C14.b/REPLACE-STORES-NEW", "LocalClient.AddVersion", "", "function not found")
 	} else {
 		n := 0
-		loops := naturalLoops(add)
 		for _, b := range add.Blocks {
 			for _, in := range b.Instrs {
 				st, ok := in.(*ssa.Store)
@@ -263,7 +297,7 @@ func checkC14(r *Report) {
 					continue
 				}
 				ia, ok := st.Addr.(*ssa.IndexAddr)
-				if !ok || innermostLoop(loops, b) == nil {
+				if !ok {
 					continue
 				}
 				if !strings.HasSuffix(ia.X.Type().String(), "[]deps.dev/util/resolve.Version") {
@@ -290,7 +324,8 @@ func checkC14(r *Report) {
 				}
 			}
 		}
-		r.floor("C14.b/REPLACE-STORES-NEW", "stores into the version slice inside AddVersion's loop", n, 1)
+		r.floor("C14.b/REPLACE-STORES-NEW", "element stores into a []resolve.Version in AddVersion", n, 1)
+		addCompleteRule(r, p, add)
 	}
 	n := readPureRule(r, p, e, "C14.c/READ-PURE", "resolve.LocalClient")
 	r.floor("C14.c/READ-PURE", "resolve.Client methods of LocalClient", n, 4)
@@ -480,7 +515,7 @@ func checkC18(r *Report) {
 	e := runEffect(p)
 	pathTrusted(r)
 	effectTrusted(r)
-	r.Explain = "Structural clauses of 'the API-backed client maps bundles consistently, race-free'. C18.a LOCKSET: every access to a field F that has a sibling mutex FMu (APIClient.bundledVersions) is made with that mutex held on all paths (forward must-analysis of Lock/Unlock/defer Unlock per basic block). C18.b DERIVED-FIRST: the map update that stores a bundle into bundledVersions is dominated by a SetAttr(version.DerivedFrom, ...) call in the same function, so a stored bundle always records what it derives from. C18.c BUNDLE-GUARD: in each of the four resolve.Client methods of APIClient every RPC on the Insights service is on the false side of the isNPMBundle(name) test and the true side reads through getBundledVersion, so all four calls treat bundle names consistently. C18.d CLIENT-STATE: no field of APIClient is stored to after construction and the only field-held memory updated in place is bundledVersions. Not decided: equality of graphs through the two clients; the race detector's verdict on schedules (C18.a is the static necessary condition for it)."
+	r.Explain = "Structural clauses of 'the API-backed client maps bundles consistently, race-free'. C18.a LOCKSET: every access to a field F that has a sibling mutex FMu (APIClient.bundledVersions) is made with that mutex held on all paths (forward must-analysis of Lock/Unlock/defer Unlock per basic block). C18.b DERIVED-FIRST: the map update that stores a bundle into bundledVersions is dominated by a SetAttr(version.DerivedFrom, ...) call in the same function, so a stored bundle always records what it derives from. C18.c BUNDLE-GUARD: in each of the four resolve.Client methods of APIClient every RPC on the Insights service is on the false side of the isNPMBundle(name) test and the true side reads through getBundledVersion, so all four calls treat bundle names consistently. C18.d CLIENT-STATE: no field of APIClient is stored to after construction and the only field-held memory updated in place is bundledVersions. C18.e ALIAS-ISOLATED: no function of the API client that receives a dependency type by value writes its shared attribute map, so the alias (KnownAs) added to one requirement cannot leak into the other requirements built from the same per-section template. Not decided: equality of graphs through the two clients; the race detector's verdict on schedules (C18.a is the static necessary condition for it)."
 	n := locksetRule(r, p, "C18.a/LOCKSET")
 	r.floor("C18.a/LOCKSET", "accesses to guarded fields", n, 2)
 	if tp := loadTestdata(); tp != nil {
@@ -617,6 +652,22 @@ func checkC18(r *Report) {
 	}
 	r.floor("C18.c/BUNDLE-GUARD", "resolve.Client methods of APIClient", nGuard, 4)
 
+	// C18.e: requirement types built from a shared template are cloned before they are annotated
+	if af := attrSetMapField(p); af != nil {
+		n := byValueAttrMutation(r, p, e, "C18.e/ALIAS-ISOLATED", af, func(f *ssa.Function) bool {
+			return p.pkgOfFn(f).Pkg.Path() == modPrefix+"resolve" && strings.HasSuffix(p.Fset.Position(f.Pos()).Filename, "/api.go")
+		})
+		ok := true
+		for _, o := range r.Obls {
+			if o.Rule == "C18.e/ALIAS-ISOLATED" && !o.OK {
+				ok = false
+			}
+		}
+		if ok {
+			r.ok("C18.e/ALIAS-ISOLATED", "util/resolve/api.go", "", fmt.Sprintf("none of the %d by-value attribute-set parameters in the API client's code has its shared map written (the per-section dependency type is cloned before KnownAs is added)", n))
+		}
+		r.floor("C18.e/ALIAS-ISOLATED", "by-value attribute-set parameters in api.go", n, 1)
+	}
 	// C18.d
 	structStateRule(r, p, e, "C18.d/CLIENT-STATE", "resolve", "APIClient", map[string]string{"bundledVersions": "guarded by bundledVersionsMu (C18.a)"})
 }
@@ -684,4 +735,87 @@ func structStateRule(r *Report, p *Prog, e *Effect, rule, pkgRel, typeName strin
 		}
 	}
 	r.floor(rule, "constructor stores into "+typeName, nStores, 1)
+}
+
+// addCompleteRule (C14.d): every return of AddVersion, except the early return
+// for versions flagged Deleted, is preceded by the store of the requirements
+// into lc.imports and by the loop that makes every dependency package known.
+func addCompleteRule(r *Report, p *Prog, add *ssa.Function) {
+	rule := "C14.d/ADD-COMPLETE"
+	fieldUpd := func(b *ssa.BasicBlock, field string) bool {
+		for _, in := range b.Instrs {
+			if mu, ok := in.(*ssa.MapUpdate); ok {
+				if fv := nearestField(mu.Map); fv != nil && fieldOwnerKey(p, fv) == "resolve.LocalClient."+field {
+					return true
+				}
+			}
+		}
+		return false
+	}
+	// the ensure loop: a loop whose body updates PackageVersions under a failed lookup
+	var ensure *loop
+	for _, l := range naturalLoops(add) {
+		for b := range l.body {
+			if fieldUpd(b, "PackageVersions") {
+				ensure = l
+			}
+		}
+	}
+	// exempt: the true edge of the Deleted test
+	isDeletedGuard := func(b *ssa.BasicBlock) bool {
+		ifi, ok := b.Instrs[len(b.Instrs)-1].(*ssa.If)
+		if !ok {
+			return false
+		}
+		return condDerives(ifi.Cond, 0, func(v ssa.Value) bool {
+			c, ok := v.(*ssa.Call)
+			if !ok || !strings.HasSuffix(staticCalleeName(c), "version.AttrSet).HasAttr") || len(c.Common().Args) < 2 {
+				return false
+			}
+			k, ok := c.Common().Args[1].(*ssa.Const)
+			return ok && k.Value != nil
+		})
+	}
+	check := func(what string, pred func(*ssa.BasicBlock) bool) {
+		key := fnKey(add) + ": every return passes " + what
+		// paths from entry avoiding pred blocks; the Deleted early return is cut
+		type item struct {
+			b    *ssa.BasicBlock
+			path []*ssa.BasicBlock
+		}
+		seen := map[*ssa.BasicBlock]bool{}
+		stack := []item{{add.Blocks[0], []*ssa.BasicBlock{add.Blocks[0]}}}
+		for len(stack) > 0 {
+			it := stack[len(stack)-1]
+			stack = stack[:len(stack)-1]
+			if seen[it.b] {
+				continue
+			}
+			seen[it.b] = true
+			if pred(it.b) {
+				continue
+			}
+			if _, ok := it.b.Instrs[len(it.b.Instrs)-1].(*ssa.Return); ok {
+				pp := pathPositions(p, it.path)
+				r.bad(rule, key, pp[len(pp)-1], "a path through AddVersion returns without "+what+": what the client later reports no longer reflects this addition", pp...)
+				return
+			}
+			for i, s := range it.b.Succs {
+				if i == 0 && isDeletedGuard(it.b) {
+					continue
+				}
+				stack = append(stack, item{s, append(append([]*ssa.BasicBlock{}, it.path...), s)})
+			}
+		}
+		r.ok(rule, key, p.pos(add.Pos()), "holds on every path except the early return for versions flagged Deleted")
+	}
+	check("the store of the requirements into lc.imports", func(b *ssa.BasicBlock) bool { return fieldUpd(b, "imports") })
+	check("the store of the version list into lc.PackageVersions", func(b *ssa.BasicBlock) bool {
+		return fieldUpd(b, "PackageVersions") && (ensure == nil || !ensure.body[b])
+	})
+	if ensure == nil {
+		r.bad(rule, fnKey(add)+": dependency packages made known", p.pos(add.Pos()), "AddVersion no longer has a loop that enters every dependency package into PackageVersions")
+	} else {
+		check("the loop that makes every dependency package known", func(b *ssa.BasicBlock) bool { return b == ensure.header })
+	}
 }
